@@ -727,6 +727,8 @@ class Session:
             i = op.get("i", 0) % 4
             if mm.user_defined_controllers <= i:
                 mm.user_defined_controllers = i + 1
+                # newly exposed user controllers may already carry a mapping: refresh, as a loader would
+                mm.update_user_defined_controllers()
             outs = []
             for step, key in enumerate(("a", "b")):
                 msel, csel = op.get(key, [0, 0])
@@ -859,6 +861,50 @@ class Session:
             mm.update_user_defined_controllers()
             return "embed:" + out
         raise ValueError("unknown op %r" % (op,))
+
+
+def _offset(t):
+    return -t.min if isinstance(t, Range) and t.min < 0 and type(t).__name__ != "NoOffsetRange" else 0
+
+
+def normalise_metamodules(obj, depth=0):
+    """Compare like with like (DESIGN §5/C01): a *live* MetaModule refreshes the value types of its
+    user-defined controllers only when asked, a loaded one always has them refreshed.  Where the
+    stale live type and the type the loader will derive disagree about the stored encoding
+    (different offset, or a non-range target), do what the loader does; harmless staleness (two
+    ranges with the same offset, e.g. a value above the new target's maximum) is left alone,
+    because live and loaded then agree and such states are legitimate things to save."""
+    if depth > 6 or obj is None:
+        return
+    name = type(obj).__name__
+    if name == "Project":
+        for m in obj.modules:
+            if m is not None:
+                normalise_metamodules(m, depth + 1)
+    elif name == "Synth":
+        normalise_metamodules(obj.module, depth + 1)
+    elif name == "Sampler":
+        normalise_metamodules(obj.effect, depth + 1)
+    elif name == "MetaModule":
+        normalise_metamodules(obj.project, depth + 1)
+        proj = obj.project
+        stale = False
+        for i, (mp, ud) in enumerate(zip(obj.mappings.values, obj.user_defined)):
+            if i >= obj.user_defined_controllers:
+                break
+            tgt = proj.modules[mp.module] if proj is not None and 0 < mp.module < len(proj.modules) else None
+            if tgt is None:
+                want = None
+            else:
+                ctls = list(tgt.controllers.values())
+                want = ctls[mp.controller].instance_value_type(tgt) if mp.controller < len(ctls) else None
+            have = ud.value_type
+            if want is None:
+                continue  # the loader leaves this one alone as well
+            if not (isinstance(want, Range) and isinstance(have, Range) and _offset(want) == _offset(have)):
+                stale = True
+        if stale:
+            obj.update_user_defined_controllers()
 
 
 # ---------------------------------------------------------------------------
